@@ -200,7 +200,7 @@ class BitStringPayloadDecoder(AbstractSimplePayloadDecoder):
                     yield trailingBits
 
             trailingBits = ord(trailingBits)
-            if trailingBits > 7:
+            if trailingBits > 7 or trailingBits and length == 1:
                 raise error.PyAsn1Error(
                     'Trailing bits overflow %s' % trailingBits
                 )
@@ -241,7 +241,7 @@ class BitStringPayloadDecoder(AbstractSimplePayloadDecoder):
                 raise error.PyAsn1Error('Empty BIT STRING fragment')
 
             trailingBits = oct2int(component[0])
-            if trailingBits > 7:
+            if trailingBits > 7 or trailingBits and len(component) == 1:
                 raise error.PyAsn1Error(
                     'Trailing bits overflow %s' % trailingBits
                 )
@@ -308,7 +308,7 @@ class BitStringPayloadDecoder(AbstractSimplePayloadDecoder):
                 raise error.PyAsn1Error('Empty BIT STRING fragment')
 
             trailingBits = oct2int(component[0])
-            if trailingBits > 7:
+            if trailingBits > 7 or trailingBits and len(component) == 1:
                 raise error.PyAsn1Error(
                     'Trailing bits overflow %s' % trailingBits
                 )
